@@ -140,6 +140,38 @@ def run_case(c):
             bad("covariance", "covariance of the sampler A A^T differs from the canonical covariance by %.3e (scale %.3e); variates used: %d" % (e, scale, A.shape[1]), **feat)
         if A.shape[1] != 3 * ns:
             bad("variate_count", "sampler consumes %d variates, expected %d (3N)" % (A.shape[1], 3 * ns), **feat)
+        # the variates the sampler really draws (its own generator, with and without a seed): pull them back through the measured map A and
+        # test independence: no repeated coincidences (probability zero for independent continuous variates), pooled mean 0 / variance 1, and no
+        # sample correlation between different variates beyond the 0.5 mark (400 snapshots: the null spread is 0.05)
+        if not (dist == "classical" and T == 0) and n_included >= 4:
+            K = 400
+            Ap = np.linalg.pinv(A)
+            used = np.linalg.norm(A, axis=0) > 1e-12 * np.abs(A).max()
+            for seed_ in (None, int(c["seed"] % 10007) + 1):
+                rd.run(T, number_of_snapshots=K, random_seed=seed_)
+                Uk = np.array(rd.u).reshape(K, -1)
+                Z = (Ap @ Uk.T).T[:, used]
+                obs["n_variates_recovered"] = obs.get("n_variates_recovered", 0) + int(Z.size)
+                if np.abs(A[:, used] @ Z.T - Uk.T).max() > 1e-8 * max(np.abs(Uk).max(), 1e-300):
+                    bad("not_linear_image", "displacements drawn with random_seed=%r are not in the image of the measured linear map (residual %.3e)" % (
+                        seed_, np.abs(A[:, used] @ Z.T - Uk.T).max()), seeded=seed_ is not None, **feat)
+                    continue
+                srt = np.sort(Z, axis=1)
+                gap = np.diff(srt, axis=1)
+                # (an accidental coincidence below 1e-9 has probability ~5e-4 per case; three of them ~1e-11. A shared stream gives K or more.)
+                ndup = int((gap < 1e-9).sum())
+                if ndup >= 3:
+                    bad("variates_not_independent", "%d pairs of the %d x %d variates drawn with random_seed=%r coincide (independent normal variates never do)" % (
+                        ndup, K, Z.shape[1], seed_), seeded=seed_ is not None, **feat)
+                m_, v_ = float(Z.mean()), float(Z.var())
+                nz = Z.size
+                if abs(m_) > 6.0 / np.sqrt(nz) or abs(v_ - 1.0) > 6.0 * np.sqrt(2.0 / nz):
+                    bad("variates_not_standard_normal", "pooled variates drawn with random_seed=%r have mean %.4f and variance %.4f (n=%d)" % (seed_, m_, v_, nz), seeded=seed_ is not None, **feat)
+                if Z.shape[1] >= 2:
+                    R = np.corrcoef(Z.T)
+                    np.fill_diagonal(R, 0.0)
+                    if np.abs(R).max() > 0.5:
+                        bad("variates_not_independent", "sample correlation %.2f between two different variates over %d snapshots (random_seed=%r)" % (np.abs(R).max(), K, seed_), seeded=seed_ is not None, **feat)
         # correlation matrices
         if not (dist == "classical" and T == 0):
             rd.run_correlation_matrix(T)
